@@ -26,21 +26,24 @@ package services
 // every singular message field may be nil, elements of repeated message fields are non-nil, scalars arbitrary.
 
 //@ func (*subscriberServer).CreateSubscription(s, ctx, req) (resp, err)
-//@   property C16
-//@   uses tables notifyspec
+//@   property C16 C17 C12
+//@   uses tables notifyspec svc
 //@   nopanic
 //@   requires s != nil && s.client != nil && req != nil && tables_wf()
+//@   ensures created_as_requested: [C17 C12] err == nil ==> (exists x Id :: {subscriptions.name(x)} sub_named(x, req.Name) && !old(subscriptions.exists(x)) &&
+//@             topic_named(subscriptions.topic_id(x), req.Topic) && row_matches_request(x, req) && response_mirrors_row(resp, x))
 //@   ensures error_leaves_state: [C16 C09] err != nil ==> state_unchanged()
 
 // C12: Get succeeds exactly for live resources: it answers with the resource of that name when one is live, and with an
 // error otherwise (storage failures aside).
 //@ func (*subscriberServer).GetSubscription(s, ctx, req) (resp, err)
-//@   property C16 C12
-//@   uses tables notifyspec
+//@   property C16 C12 C17
+//@   uses tables notifyspec svc
 //@   nopanic
 //@   requires s != nil && s.client != nil && req != nil && tables_wf()
 //@   ensures error_leaves_state: [C16 C09] err != nil ==> state_unchanged()
 //@   ensures get_sound: [C12] err == nil ==> resp != nil && resp.Name == req.Subscription && valid_subscription_name(req.Subscription) && (exists x Id :: subscriptions.exists(x) && subscriptions.deleted_at$null(x) && subscriptions.name(x) == req.Subscription)
+//@   ensures get_config: [C17] err == nil ==> (exists x Id :: {subscriptions.name(x)} sub_named(x, req.Subscription) && response_mirrors_row(resp, x))
 //@   ensures get_complete: [C12] valid_subscription_name(req.Subscription) && (exists x Id :: subscriptions.exists(x) && subscriptions.deleted_at$null(x) && subscriptions.name(x) == req.Subscription) && (forall x Id, y Id :: {subscriptions.name(x), subscriptions.name(y)} subscriptions.exists(x) && subscriptions.deleted_at$null(x) && subscriptions.name(x) == req.Subscription && subscriptions.exists(y) && subscriptions.deleted_at$null(y) && subscriptions.name(y) == req.Subscription ==> x == y) && !dbfailed() ==> err == nil
 
 // C17: an update changes exactly the configuration named in its mask: every column of every other row, and every
@@ -223,6 +226,18 @@ package services
 //@   requires subscription != nil
 //@   ensures result != nil && !allocated(result)
 //@   ensures name: [C12] result.Name == subscription.Name
+//@   ensures config: [C17] result.EnableMessageOrdering == subscription.OrderedDelivery && result.Labels == subscription.Labels &&
+//@             result.Filter == ite(subscription.MessageFilter != nil, deref(subscription.MessageFilter), "") &&
+//@             (result.PushConfig != nil) == (subscription.PushEndpoint != nil) && (subscription.PushEndpoint != nil ==> result.PushConfig.PushEndpoint == deref(subscription.PushEndpoint)) &&
+//@             result.MessageRetentionDuration != nil && asduration(result.MessageRetentionDuration) == subscription.MessageTTL &&
+//@             result.ExpirationPolicy != nil && result.ExpirationPolicy.Ttl != nil && asduration(result.ExpirationPolicy.Ttl) == subscription.TTL
+//@   ensures retry_policy: [C17] (result.RetryPolicy != nil) == (subscription.MinBackoff != nil || subscription.MaxBackoff != nil) &&
+//@             (subscription.MinBackoff != nil ==> result.RetryPolicy.MinimumBackoff != nil && asduration(result.RetryPolicy.MinimumBackoff) == deref(subscription.MinBackoff)) &&
+//@             (subscription.MaxBackoff != nil ==> result.RetryPolicy.MaximumBackoff != nil && asduration(result.RetryPolicy.MaximumBackoff) == deref(subscription.MaxBackoff)) &&
+//@             (result.RetryPolicy != nil && subscription.MinBackoff == nil ==> result.RetryPolicy.MinimumBackoff == nil) &&
+//@             (result.RetryPolicy != nil && subscription.MaxBackoff == nil ==> result.RetryPolicy.MaximumBackoff == nil)
+//@   ensures dead_letter_policy: [C17] (result.DeadLetterPolicy != nil) == (subscription.DeadLetterTopicID != nil) &&
+//@             (subscription.DeadLetterTopicID != nil && subscription.MaxDeliveryAttempts != nil ==> result.DeadLetterPolicy.MaxDeliveryAttempts == deref(subscription.MaxDeliveryAttempts))
 //@ func entSnapshotToGrpc(snapshot, topicName) (result)
 //@   property C16
 //@   nopanic
